@@ -22,6 +22,23 @@ def dec(c):
         return ts
     while p < len(c):
         o = c[p]
+        if 100 <= o <= 115:
+            p += 1
+            def take(n):
+                nonlocal p
+                xs = c[p:p + n]; p += n; return xs
+            def astt():
+                n = take(1)[0]; return take(n)
+            if o in (100, 104, 105): a = take(2); ops.append("g%d w%d q#%d %s" % (o, a[0], a[1], astt()))
+            elif o in (101, 103, 107, 109, 112): ops.append("g%d slot %s" % (o, take(1)))
+            elif o in (102, 110): a = take(4); ops.append("g%d slot=%d kind=%d r=%d newq=%d %s" % (o, a[0], a[1], a[2], a[3], astt()))
+            elif o == 106: wv = take(1); hh = href(); a = take(2); ops.append("gref w%s %s t=%d uniq=%d" % (wv, hh, a[0], a[1]))
+            elif o == 108: wv = take(1); hh = href(); qi = take(1); ops.append("gone w%s %s q#%s %s" % (wv, hh, qi, astt()))
+            elif o == 111: ops.append("gcol %s" % take(4))
+            elif o == 113: ops.append("static %s %s" % (take(1), astt()))
+            elif o == 114: ops.append("cells")
+            elif o == 115: ops.append("drop_all")
+            continue
         if 50 <= o <= 86 or o == 22:
             p += 1
             def take(n):
